@@ -283,13 +283,19 @@ func runList(t *testing.T, rc *RunCtx) {
 	}
 	pathPool := []string{"Wallet1", "Wallet2", "Wallet10", "xWallet2", "wallet3", "Wallet1/acc1", "Wallet1/acc.*", "Wallet1/acc1|Acc2", "Wallet1/.*1", "Wallet2/val-.*", "Wallet1/made.*",
 		"Nowhere", "Nowhere/acc1", "", "/acc1", "Wallet1/[unclosed", "wallet1", "Wallet1/ACC1", "Wallet1/^acc1$", "Dist"}
-	rounds := 3 + ch.Pick(8, 0)
+	rounds := 4 + ch.Pick(10, 0)
 	var desc []string
+	// Creations and listings concentrate on one wallet, so that create / list / create / list sequences on the
+	// same wallet are common.
+	focus := permWallets[ch.Pick(len(permWallets), 0)].Name
 	for r := 0; r < rounds && len(rc.Viol) == 0; r++ {
-		// Sometimes create an account through Dirk first (it must show up without a restart).
-		if ch.Pick(3, 0) == 2 {
+		// Often create an account through Dirk first (it must show up without a restart).
+		if ch.Pick(2, 0) == 1 {
 			creator := w.clients[ch.Pick(len(w.clients), 0)]
-			wl := permWallets[ch.Pick(len(permWallets), 0)].Name
+			wl := focus
+			if ch.Pick(3, 0) == 2 {
+				wl = permWallets[ch.Pick(len(permWallets), 0)].Name
+			}
 			w.created++
 			name := fmt.Sprintf("made%d", w.created)
 			res, err := inst.AcctH.Generate(inst.ClientCtx(creator, ""), &pb.GenerateRequest{Account: wl + "/" + name, Passphrase: []byte("pass"), Participants: 1, SigningThreshold: 1})
@@ -304,6 +310,9 @@ func runList(t *testing.T, rc *RunCtx) {
 		paths := make([]string, np)
 		for i := range paths {
 			paths[i] = pathPool[ch.Pick(len(pathPool), 0)]
+		}
+		if ch.Pick(2, 0) == 1 {
+			paths[ch.Pick(np, 0)] = focus
 		}
 		res, err := inst.ListerH.ListAccounts(inst.ClientCtx(client, ""), &pb.ListAccountsRequest{Paths: paths})
 		desc = append(desc, fmt.Sprintf("list %q %q", client, paths))
